@@ -35,6 +35,12 @@ CHECKS["C02"] = dict(
     note="Trusts TLC, that grouping parentheses parse correctly, and ast String() as a faithful rendering of the tree; chained if is not determined by the table and is only logged.",
     design="§5 C02")
 
+CHECKS["C16"] = dict(
+    technique="TLA+ spec PanLexer (reader/buffer/longest-match scanner): TLC explores all inputs up to MaxLen abstract characters under all chunk schedules (whole-input policy safe, pinned window policy must violate ChunkIndependence) and padding of line breaks; token streams and trees recorded from the real lexer/parser for base texts and variants are validated against PanLexer's relations by TLC (trace validation)",
+    text="Design-level exhaustive model checking of the lexer protocol plus validation of real token streams (hook H2) and parse trees for the repository's Pangaea corpus and generated programs under other read schedules, padded line breaks (sizes around 1 KiB/2 KiB/5000) and long tokens (to 10000 bytes).",
+    note="Trusts TLC, hook H2 (token export through the real Lexer.Lex loop) and ast String(); corpus- and size-bounded on the implementation side.",
+    design="§5 C16")
+
 NOT_YET = {}
 
 def main():
